@@ -114,7 +114,7 @@ man = {
     }],
     "checks": checks,
     "not_applicable": na,
-    "notes": "Static analysis only; see DESIGN.md. Genuine defects found by the rules on the pinned tree were repaired by 11 'fix:' commits in /repo and are recorded as fixed: entries in known_findings.json (which suppresses nothing).",
+    "notes": "Static analysis only; see DESIGN.md. Genuine defects found by the rules on the pinned tree were repaired by 15 'fix:' commits in /repo and are recorded as fixed: entries in known_findings.json (which suppresses nothing).",
 }
 json.dump(man, open(os.path.join(HERE, "MANIFEST.json"), "w"), indent=1)
 print("claimed:", sorted(CLAIMED.keys()), "not claimed:", len(na))
